@@ -94,7 +94,16 @@ def run(ctx) -> None:
     norm = letter_normalisation(ctx)
     letters = comparator_letters(ctx)
     all_letters = set().union(*letters.values())
-    ctx.floor("R1", "tag spellings", len(t2p), 13)
+    ctx.floor("R1", "tag spellings", len(t2p), 3)
+    # every release tag the TAG part can read has a PEP 440 form in the table (otherwise {pep440_version} cannot denote it)
+    from sa import relang as _rl
+    _pats = prog.const("v2patterns", "PART_PATTERNS")
+    _lang, _complete = _rl.enumerate_language(_rl.from_regex(_pats["TAG"]), max_len=12)
+    ctx.require(_complete, "TAG regex not finite")
+    ctx.check("R1", set(_lang) <= set(t2p), f"every tag text recognised by PART_PATTERNS['TAG'] ({len(_lang)}) is a key of PEP440_TAG_BY_TAG",
+              "version.PEP440_TAG_BY_TAG lacks a release tag that the TAG part recognises",
+              f"missing {sorted(set(_lang) - set(t2p))}: for such a version {{pep440_version}} is rendered with the raw tag text (or fails), "
+              f"which PEP 440 reads as a different version", loc="src/bumpver/version.py", witness={"tag": sorted(set(_lang) - set(t2p))[:1]})
     for t, p in sorted(t2p.items()):
         if t == "final":
             ctx.check("R1", p == "", "final -> '' (no PEP 440 segment)", "version.PEP440_TAG_BY_TAG['final'] is not the empty tag", repr(p), loc="src/bumpver/version.py")
